@@ -14,7 +14,7 @@ precedence relation, not by the table), of the fully parenthesised spelling
 and of every layout variant must be the tree the term denotes, both spellings
 must evaluate to the same results, and malformed strings must be rejected.
 """
-import json, os, re
+import json, os, re, time
 import vlib
 
 IMPORTS = ("From Coq Require Import String.\nFrom YQ Require Import Base.Str Gen.OpTable Model.Postfix Model.Tree Model.PostProcess.\n"
@@ -615,6 +615,7 @@ def run(chk):
         t = gen_term(rng, rng.choice([2, 3]), for_eval=False)
         add_term(t, ["tight", "mixed"], "randp")
 
+    T = {"gen": round(time.time() - chk.t0, 1)}
     # ---------------------------------------------------------------- implementation
     resp = vlib.yqh_parallel(parse_reqs([c[4] for c in cases]))
     impl = [impl_class(r) for r in resp]
@@ -632,9 +633,13 @@ def run(chk):
                 chk.violation({"kind": "tree", "expr": c[4], "spelling": c[1], "layout": c[3], "expected": ex, "impl": im,
                                "min_spelling": layout(render(t, "min"), "space", rng), "full_spelling": layout(render(t, "full"), "space", rng)},
                               True, "the %s/%s spelling is not parsed as the bracketing the term denotes" % (c[1], c[3]))
+    bad_rec = [c[4] for c in cases if not wellformed(c[2])]
+    if bad_rec:
+        broken.append("the check's own grammar recogniser rejects a generated expression: %r" % bad_rec[0])
     chk.extra["tree_cases"] = len(cases)
     chk.extra["tree_mismatches"] = nviol
 
+    T["impl_trees"] = round(time.time() - chk.t0, 1)
     # ---------------------------------------------------------------- model correspondence (raw tokens -> tree)
     seen = {}
     mcases, morig = [], []
@@ -741,7 +746,9 @@ def run(chk):
     chk.extra["malformed_cases"] = len(rej)
     chk.extra["permuted_accepted"] = accepted
 
+    T["malformed"] = round(time.time() - chk.t0, 1)
     mism, err = vlib.coq_mismatches(chk.workdir, "c09_cases", IMPORTS, "parse_ctoks", mcases, shard=300)
+    T["model"] = round(time.time() - chk.t0, 1)
     disagreements = []
     if err:
         broken.append("model evaluation failed: " + err[-600:])
@@ -781,6 +788,8 @@ def run(chk):
                                   True, "two spellings of one expression evaluate differently")
         if any(x[0] in ("panic", "timeout", "crash") for x in o):
             pass   # C11's business; equality above already compares the classes
+    T["eval"] = round(time.time() - chk.t0, 1)
+    chk.extra["stage_seconds_cumulative"] = T
     chk.extra["eval_triples"] = len(emeta)
     chk.extra["eval_ok"] = ok_evals
     dist["eval/ok"] = ok_evals
